@@ -228,11 +228,15 @@ CLAIMS["C33"] = (
     "and unpadding a padded text of n bytes leaves n bytes -- with the two contracts this is unpad(pad(d)) == d. The ECB block walks "
     "(encrypter and decrypter, loop invariants) reject partial blocks and short outputs and otherwise hand only whole blocks to the cipher "
     "(the preconditions under which crypto/aes panics never arise) and write only dst[0:len(src)]; EncryptECB returns len(data)+padLen "
-    "bytes; DecryptECB on any input returns an error or data, never panics.",
+    "bytes; DecryptECB on any input returns an error or data, never panics. Storage-area half: LocalClient.safeJoinPath accepts a path "
+    "only as its cleaned, root-relative form and only when THAT form is not '..', does not start with '../', contains no '/../', no "
+    "forbidden character and at most 1024 bytes (the checks are made on the form that is returned, not on the raw input); "
+    "FullNamespacePath hands out a file name only for an accepted path.",
     "Trusted: crypto/aes.NewCipher, cipher.Block.Encrypt/Decrypt (one block in, one block out, mutually inverse: the inverse property is not "
-    "modelled, so 'DecryptECB(EncryptECB(d)) == d' is decided up to the cipher), bytes.Repeat. NOT under contract: base64 / JSON encoding of "
-    "the stored values, the key derivation, and the file-store path confinement (safeJoinPath: filepath / strings library reasoning) -- the "
-    "'stays inside the storage area' half of the property is not decided.",
+    "modelled, so 'DecryptECB(EncryptECB(d)) == d' is decided up to the cipher), bytes.Repeat. filepath.IsAbs / Rel / Clean / Join and strings.HasPrefix / "
+    "Contains / ContainsAny are uninterpreted (what 'cleaned' means, and that a cleaned path without the three patterns stays below the "
+    "storage directory, is the standard library's semantics, not proved). NOT under contract: base64 / JSON encoding of the stored "
+    "values, the key derivation, Store.UpdateNamespace / LoadNamespace, SyncNamespaces.",
     "DESIGN.md section 4, C33")
 
 CLAIMS["C30"] = (
